@@ -98,7 +98,9 @@ def _candidates(family, repo, seed, budget):
             except Exception:
                 pass
         corpus += ['ver:"3.0"\na,b\n1,2\n3,4\n', 'ver:"3.0" m:1\na x:1,b\n"s",[1,2]\n{a:1},<<\nver:"3.0"\nc\n1\n>>\n',
-                   '[1,2,[3,{a:1 b}]]', '{a:1,b:"x" c}', 'ver:"3.0"\na\n1 ', 'ver:"3.0"\na\n1,2\n']
+                   '[1,2,[3,{a:1 b}]]', '{a:1,b:"x" c}', 'ver:"3.0"\na\n1 ', 'ver:"3.0"\na\n1,2\n',
+                   # non-ASCII bytes where a unit, an id or a string may continue (two-byte UTF-8 whose second byte is 0x80 / is not)
+                   '1\u00c0', '12.5\u00c0', '[42\u0100]', '1\u00e9', '"\u00e9"', '`\u00e9`', '@a\u00e9', '^a\u00e9', 'A\u00e9("x")', '2021-06-19\u00c0']
         for d in (50, 127, 128, 129, 100000):
             out.append('[' * d)
             out.append('{a:' * d)
